@@ -2,7 +2,7 @@
 """Regenerate MANIFEST.json from pylib/props.py (single source of truth)."""
 import json, os, subprocess, sys
 sys.path.insert(0, os.path.dirname(os.path.abspath(__file__)))
-from props import PROPS, NOT_APPLICABLE, MANIFEST_TEXT
+from props import PROPS, NOT_APPLICABLE, MANIFEST_TEXT, DISABLED
 
 VERIF = os.path.dirname(os.path.dirname(os.path.abspath(__file__)))
 ids = [json.loads(l)["id"] for l in open(os.path.join(VERIF, "properties.jsonl"))]
@@ -16,7 +16,7 @@ def hook_commits():
 
 checks = []
 for pid in ids:
-    if pid not in PROPS:
+    if pid not in PROPS or pid in DISABLED:
         continue
     t = MANIFEST_TEXT[pid]
     checks.append({
@@ -30,7 +30,7 @@ for pid in ids:
         "level_note": t["note"],
         "technique": t.get("technique", "machine-checked proof in Rocq/Coq 8.16 over a Gallina model + checked model/implementation correspondence"),
     })
-na = [{"property_id": pid, "reason": NOT_APPLICABLE[pid]} for pid in ids if pid not in PROPS]
+na = [{"property_id": pid, "reason": NOT_APPLICABLE[pid]} for pid in ids if pid not in PROPS or pid in DISABLED]
 m = {
     "version": 1,
     "setup_cmd": "./check --setup",
